@@ -222,7 +222,8 @@ class MTSPEnv(RL4COEnvBase):
     def _get_reward(self, td, actions=None) -> TensorDict:
         # With minmax, get the maximum distance among subtours, calculated in the model
         if self.cost_type == "minmax":
-            return td["reward"].squeeze(-1)
+            # one value per instance; squeeze(-1) would drop the batch dimension of a single instance
+            return td["reward"].reshape(td.batch_size)
 
         # With distance, same as TSP
         elif self.cost_type == "sum":
